@@ -442,7 +442,7 @@ fn lm_problems() -> Vec<LmProblem> {
     let noise = |i: usize| [0.3, -0.2, 0.1, -0.4, 0.25, 0.0, -0.15][i % 7];
     for &n in &[5usize, 12, 40, 200] {
         let xs: Vec<f64> = (0..n).map(|i| i as f64 * 0.5 - 1.0).collect();
-        v.push(LmProblem { name: "line", f: lm_line, linear: true, eval: |p, x| p[0] + p[1] * x, jac: |_, x| vec![1.0, x], xs: xs.clone(), ys: xs.iter().enumerate().map(|(i, x)| 2.0 - 3.0 * x + noise(i)).collect(), starts: vec![vec![0.0, 0.0], vec![50.0, -40.0], vec![2.0, -3.0]] });
+        v.push(LmProblem { name: "line", f: lm_line, linear: true, eval: |p, x| p[0] + p[1] * x, jac: |_, x| vec![1.0, x], xs: xs.clone(), ys: xs.iter().enumerate().map(|(i, x)| 2.0 - 3.0 * x + noise(i)).collect(), starts: vec![vec![3e3, 7e3], vec![-4e4, 2.5e4], vec![6e5, -9e5], vec![0.0, 0.0], vec![50.0, -40.0], vec![2.0, -3.0]] });
         // replicate measurements: every abscissa three times (consecutive equal x with different y)
         if n <= 40 {
             let xr: Vec<f64> = (0..n).map(|i| (i / 3) as f64 * 0.5 - 1.0).collect();
